@@ -56,6 +56,8 @@ type Obligation struct {
 	Text    string
 	Props   []string
 	Trivial bool
+	Tag     string            // clause identity of the goal (e.g. loop1.inv#3)
+	HypTags map[*Term]string  // provenance of hypotheses that came from contract clauses
 	Clause  *Clause
 	Result  *SolveResult
 	// for replay
@@ -68,6 +70,7 @@ type RetState struct {
 }
 
 type loopCtx struct {
+	body   []ast.Stmt
 	label  string
 	breaks []*State
 	conts  []*State
@@ -104,6 +107,13 @@ type Exec struct {
 	curProps   []string
 	loadSeen   map[string]bool
 	curClause        *Clause
+	nameCount        map[string]int
+	bndMentions      map[*Term][]*Term
+	structRoot       map[*Term]*Term
+	wfRoot           map[*Term]*Term
+	sideObls         []*Obligation
+	curTag           string
+	hypTags          map[*Term]string
 	collect          *[]*State
 	splitBudget      int
 	goalMode         bool
@@ -198,6 +208,15 @@ func (x *Exec) obligeNamed(s *State, name, kind string, goal *Term, p string, te
 		o.Hyps = append([]*Term(nil), s.assumes...)
 	}
 	o.Clause = x.curClause
+	o.Tag = x.curTag
+	o.HypTags = x.hypTags
+	if x.nameCount == nil {
+		x.nameCount = map[string]int{}
+	}
+	x.nameCount[name]++
+	if c := x.nameCount[name]; c > 1 {
+		o.Name = fmt.Sprintf("%s.path%d", name, c)
+	}
 	x.obls = append(x.obls, o)
 }
 
@@ -331,6 +350,12 @@ func (x *Exec) havocAllHeap(s *State) {
 	}
 	sort.Strings(names)
 	for _, k := range names {
+		if strings.HasPrefix(k, "G_") {
+			// package-level variables are only havoc'd when syntactically assigned (see havocVars) or by an
+			// assigns clause; the library's tunables (Epsilon, Tolerance, ...) are assumed not to be written
+			// behind the verifier's back (frame property checked for C20)
+			continue
+		}
 		if k == "$alloc" || k == "$balloc" {
 			old := x.heapGet(s, k, SInt)
 			x.havocHeap(s, k)
@@ -548,7 +573,7 @@ func (x *Exec) execBlock(s *State, list []ast.Stmt) *State {
 		if s == nil || s.dead {
 			return nil
 		}
-		if x.splitBudget > 0 && len(x.frames) == 1 && idx+1 < len(list) {
+		if x.splitBudget > 0 && len(x.frames) == 1 && idx+1 < len(list) && x.isSplitBlock(list) {
 			switch st.(type) {
 			case *ast.IfStmt, *ast.SwitchStmt:
 				var outs []*State
@@ -591,12 +616,34 @@ func (x *Exec) execBlock(s *State, list []ast.Stmt) *State {
 					}
 					return nil
 				}
+				// at the end of a loop body every path reaches the back edge on its own
+				if fr := x.frame(); len(fr.loops) > 0 {
+					lc := fr.loops[len(fr.loops)-1]
+					if len(lc.body) > 0 && &lc.body[len(lc.body)-1] == &list[len(list)-1] {
+						lc.conts = append(lc.conts, results...)
+						return nil
+					}
+				}
 				return x.merge(base, results...)
 			}
 		}
 		s = x.execStmt(s, st)
 	}
 	return s
+}
+
+// split mode applies to the function's top-level block and to the direct body of its loops
+func (x *Exec) isSplitBlock(list []ast.Stmt) bool {
+	last := &list[len(list)-1]
+	if body := x.frames[0].fi.Decl.Body.List; len(body) > 0 && &body[len(body)-1] == last {
+		return true
+	}
+	for _, lc := range x.frames[0].loops {
+		if len(lc.body) > 0 && &lc.body[len(lc.body)-1] == last {
+			return true
+		}
+	}
+	return false
 }
 
 // joinOuts merges the out-states of a branching statement, or hands them to the enclosing block in split mode
@@ -1107,7 +1154,28 @@ func (x *Exec) assign(s *State, lhs ast.Expr, v *Term) {
 			blk := Field(sv, 0)
 			abs := Arith("+", Field(sv, 1), idx)
 			v = x.fit(v, es)
-			x.heapSet(s, memName(es), Store(mem, blk, Store(Select(mem, blk), abs, v)))
+			oldArr := Select(mem, blk)
+			if es == SReal && x.eng.usedWf && x.dry == 0 && v.K == TApp {
+				// name the stored value (keeps store terms usable in quantifier patterns)
+				nv := x.freshVar("val", v.S)
+				s.assume(Eq(nv, v))
+				v = nv
+			}
+			newArr := Store(oldArr, abs, v)
+			x.heapSet(s, memName(es), Store(mem, blk, newArr))
+			if es == SReal && x.eng.usedWf {
+				if !x.wfStructuralStore(s, oldArr, newArr, Field(sv, 1), Field(sv, 2), idx, l.Pos()) {
+					if x.wfRoot == nil {
+						x.wfRoot = map[*Term]*Term{}
+					}
+					root := oldArr
+					if r, ok := x.wfRoot[oldArr]; ok {
+						root = r
+					}
+					x.wfRoot[newArr] = root
+					x.wfRecordRewriteRule(s, root, newArr, Field(sv, 1), Field(sv, 2), idx)
+				}
+			}
 		case *types.Array:
 			arr := x.eval(s, l.X)
 			idx := x.eval(s, l.Index)
